@@ -357,6 +357,98 @@ theorem load_parses_first {cfg : Cfg} {fs : FS} {s s' : LState} {r : Req} {t : T
           exact ⟨key, entries, isabs, f, rfl, hsp, hfp, hbad, rfl⟩
 
 
+/-- the search loop against the specification with faults: whatever the load functions do
+    during this call, the loop ends the way `firstOnPathF` says -/
+theorem search_firstF (cfg : Cfg) (fs : FS) (s : LState) (r : Req) (key : Key) (isabs : Bool)
+    (entries : List Entry) :
+    match firstOnPathF fs r.fault key entries with
+    | .nothing => search cfg fs s r key isabs entries = (s, .err .notFound)
+    | .raised => search cfg fs s r key isabs entries = (s, .err .loadFunc)
+    | .file loc f => ∃ u, search cfg fs s r key isabs entries = instantiate cfg s r key isabs loc f u := by
+  induction entries with
+  | nil => simp [firstOnPathF, search]
+  | cons e rest ih =>
+    unfold firstOnPathF search
+    cases e with
+    | dir d b =>
+      have hpr : probe fs r.fault (.dir d b) key = probe fs .none (.dir d b) key := by
+        unfold probe; rfl
+      rw [hpr]
+      simp only
+      rcases probe_nofault fs (.dir d b) key with ⟨loc, f, u, hl, hfs, hp⟩ | ⟨hno, hp⟩
+      · simp only [hl, hfs, hp]; exact ⟨u, rfl⟩
+      · rw [hp]
+        rcases hno with hl | ⟨loc, hl, hfs⟩
+        · simp only [hl]; exact ih
+        · simp only [hl, hfs]; exact ih
+    | fn d c =>
+      cases hfault : r.fault with
+      | io =>
+        have hp : probe fs .io (.fn d c) key = .skip := rfl
+        simp only [hp]
+        rw [hfault] at ih; exact ih
+      | other =>
+        have hp : probe fs .other (.fn d c) key = .raise := rfl
+        simp only [hp]
+      | none =>
+        simp only
+        rw [hfault] at ih
+        rcases probe_nofault fs (.fn d c) key with ⟨loc, f, u, hl, hfs, hp⟩ | ⟨hno, hp⟩
+        · simp only [hl, hfs, hp]; exact ⟨u, rfl⟩
+        · rw [hp]
+          rcases hno with hl | ⟨loc, hl, hfs⟩
+          · simp only [hl]; exact ih
+          · simp only [hl, hfs]; exact ih
+
+/-- a load that is not answered from the cache ends as the walk over the search path says,
+    load-function faults included -/
+theorem load_by_firstF {cfg : Cfg} {fs : FS} {s s' : LState} {r : Req} {res : Res} {key : Key}
+    (hk : resolve cfg.path.isEmpty r = some key)
+    (hno : alookup key s.cache.items = none ∨ (cfg.autoReload = true ∧ stillCurrent fs s key = false))
+    (h : load cfg fs s r = some (s', res)) :
+    (searchPath cfg r key = none ∧ res = .err .noSearchPath) ∨
+    ∃ entries isabs, searchPath cfg r key = some (entries, isabs) ∧
+      match firstOnPathF fs r.fault key entries with
+      | .nothing => res = .err .notFound
+      | .raised => res = .err .loadFunc
+      | .file loc f =>
+        (f.bad = true ∧ res = .err .syntaxError) ∨
+        (f.bad = false ∧ cfg.hasCallback = true ∧ r.cbRaise = true ∧ res = .err .callback) ∨
+        (f.bad = false ∧ res = .ok ⟨s.nextObj, loc, f.content, r.cls, r.enc, isabs⟩) := by
+  unfold load at h
+  simp only [hk, Option.some.injEq, Prod.mk.injEq] at h
+  obtain ⟨_, h2⟩ := h
+  let s0 : LState := { s with lock := s.lock + 1 }
+  have hn0 : (touched s0 key).nextObj = s.nextObj := (touched_fields s0 key).2.1
+  rcases loadBody_cases cfg fs s0 r key with ⟨t', hl, hc, _⟩ | ⟨_, ⟨hsp, hb⟩ | ⟨entries, isabs, hsp, hb⟩⟩
+  · exfalso
+    rcases hno with hno | ⟨har, hcur⟩
+    · have : alookup key s0.cache.items = none := hno
+      rw [this] at hl; cases hl
+    · rcases hc with hc | hc
+      · rw [har] at hc; cases hc
+      · have : stillCurrent fs s0 key = false := hcur
+        rw [this] at hc; cases hc
+  · left; rw [hb] at h2; exact ⟨hsp, h2.symm⟩
+  · right
+    refine ⟨entries, isabs, hsp, ?_⟩
+    have hsf := search_firstF cfg fs (touched s0 key) r key isabs entries
+    rw [hb] at h2
+    cases hfp : firstOnPathF fs r.fault key entries with
+    | nothing => rw [hfp] at hsf; simp only at hsf ⊢; rw [hsf] at h2; exact h2.symm
+    | raised => rw [hfp] at hsf; simp only at hsf ⊢; rw [hsf] at h2; exact h2.symm
+    | file loc f =>
+      rw [hfp] at hsf
+      simp only at hsf ⊢
+      obtain ⟨u, hsf⟩ := hsf
+      rw [hsf] at h2
+      rcases instantiate_cases cfg (touched s0 key) r key isabs loc f u with ⟨hbad, hi⟩ | ⟨hbad, hcb, hr, hi⟩ | ⟨hbad, _, hi⟩
+      · rw [hi] at h2; exact Or.inl ⟨hbad, h2.symm⟩
+      · rw [hi] at h2; exact Or.inr (Or.inl ⟨hbad, hcb, hr, h2.symm⟩)
+      · rw [hi] at h2
+        refine Or.inr (Or.inr ⟨hbad, ?_⟩)
+        rw [← h2, hn0]
+
 /-! ### a successful load, in detail -/
 
 theorem loadBody_ok {cfg : Cfg} {fs : FS} {s s' : LState} {r : Req} {key : Key} {t : Tmpl}
